@@ -7,6 +7,7 @@ import (
 	"runtime"
 	"sort"
 	"strings"
+	"sync"
 	"time"
 
 	dvconfig "github.com/named-data/ndnd/dv/config"
@@ -50,6 +51,12 @@ type dvSim struct {
 	seen map[[2]int][][]byte
 	// face generation per directed pair: a link that is re-created gets a new face id
 	faceGen map[[2]int]int
+	// advertisement fetch Interests the routers expressed themselves and the harness has not
+	// answered yet, per expressing router
+	mu       sync.Mutex
+	advFetch map[int][]simeng.Expressed
+	nFetch   int
+	nNoFetch int
 }
 
 // face returns the id of the face at a towards b (changes when the link is re-created).
@@ -121,6 +128,21 @@ func (s *dvSim) onExpress(from *dvNode, x simeng.Expressed) {
 		if cpt.Typ == enc.TypeKeywordNameComponent && string(cpt.Val) == "PFX" {
 			isPfx = true
 		}
+	}
+	isAdv := false
+	for _, cpt := range name {
+		if cpt.Typ == enc.TypeKeywordNameComponent && string(cpt.Val) == "ADV" {
+			isAdv = true
+		}
+	}
+	if isAdv && x.Callback != nil {
+		s.mu.Lock()
+		if s.advFetch == nil {
+			s.advFetch = map[int][]simeng.Expressed{}
+		}
+		s.advFetch[from.idx] = append(s.advFetch[from.idx], x)
+		s.mu.Unlock()
+		return
 	}
 	if !isPfx || x.Callback == nil {
 		return
@@ -263,56 +285,67 @@ func (s *dvSim) exchange(a, b int) bool {
 	}
 	face := s.face(a, b)
 	A.r.VerifAdvertSyncOnInterest(ndn.InterestHandlerArgs{Interest: in, IncomingFaceId: &face}, true)
-	// 2. a fetches b's advertisement: b's real Interest handler produces the Data, a's real Data handler consumes it
-	var seq uint64
-	known := false
-	A.r.VerifLocked(func() {
-		if ns := A.r.VerifNeighbors().Get(B.name); ns != nil {
-			seq, known = ns.AdvertSeq, true
-		}
-	})
-	if !known {
-		s.bad = "neighbour entry was not created by the sync Interest"
-		return false
-	}
-	advName := append(enc.Name{enc.NewStringComponent(8, "localhop")}, B.name...)
-	advName = append(advName, enc.NewStringComponent(enc.TypeKeywordNameComponent, "DV"), enc.NewStringComponent(enc.TypeKeywordNameComponent, "ADV"), enc.NewSequenceNumComponent(seq))
-	life := 4 * time.Second
-	ei, err := spec.Spec{}.MakeInterest(advName, &ndn.InterestConfig{MustBeFresh: true, Lifetime: &life}, nil, nil)
-	if err != nil {
-		s.bad = "cannot build advertisement Interest: " + err.Error()
-		return false
-	}
-	fin, _, err := spec.Spec{}.ReadInterest(enc.NewWireReader(ei.Wire))
-	if err != nil {
-		s.bad = "advertisement Interest does not decode"
-		return false
-	}
-	var reply enc.Wire
-	B.r.VerifAdvertDataOnInterest(ndn.InterestHandlerArgs{Interest: fin, Reply: func(w enc.Wire) error { reply = w; return nil }})
-	if reply == nil {
-		s.bad = "advertisement Interest was not answered"
-		return false
-	}
-	raw := append([]byte{}, reply.Join()...)
-	d, _, err := spec.Spec{}.ReadData(enc.NewBufferReader(raw))
-	if err != nil {
-		s.bad = "advertisement Data does not decode: " + err.Error()
-		return false
-	}
-	A.r.VerifAdvertDataHandler(d)
+	// 2. the fetch is the router's own decision: advertSyncOnInterest starts advertDataFetch only
+	// when the sync Interest announces a sequence number it has not seen. The harness answers the
+	// advertisement Interests router a really expresses (b's real handler encodes the Data, a's
+	// real callback decodes and applies it) and nothing else.
 	if !s.quiesce() {
 		return false
 	}
-	s.drain()
-	if s.seen == nil {
-		s.seen = map[[2]int][][]byte{}
+	s.mu.Lock()
+	var mine, rest []simeng.Expressed
+	for _, x := range s.advFetch[a] {
+		if len(x.Interest.FinalName) > 1 && B.name.IsPrefix(x.Interest.FinalName[1:]) {
+			mine = append(mine, x)
+		} else {
+			rest = append(rest, x)
+		}
 	}
-	k := [2]int{a, b}
-	if l := s.seen[k]; len(l) == 0 || !bytes.Equal(l[len(l)-1], raw) {
-		s.seen[k] = append(l, raw)
-		if len(s.seen[k]) > 6 {
-			s.seen[k] = s.seen[k][1:]
+	if s.advFetch == nil {
+		s.advFetch = map[int][]simeng.Expressed{}
+	}
+	s.advFetch[a] = rest
+	s.mu.Unlock()
+	if len(mine) == 0 {
+		s.nNoFetch++
+		s.drain()
+		return true
+	}
+	for _, x := range mine {
+		fin, _, err := spec.Spec{}.ReadInterest(enc.NewWireReader(x.Interest.Wire))
+		if err != nil {
+			s.bad = "advertisement Interest does not decode"
+			return false
+		}
+		var reply enc.Wire
+		B.r.VerifAdvertDataOnInterest(ndn.InterestHandlerArgs{Interest: fin, Reply: func(w enc.Wire) error { reply = w; return nil }})
+		if reply == nil {
+			s.bad = "advertisement Interest was not answered"
+			return false
+		}
+		raw := append([]byte{}, reply.Join()...)
+		d, cov, err := spec.Spec{}.ReadData(enc.NewBufferReader(raw))
+		if err != nil {
+			s.bad = "advertisement Data does not decode: " + err.Error()
+			return false
+		}
+		s.nFetch++
+		if x.Callback != nil {
+			x.Callback(ndn.ExpressCallbackArgs{Result: ndn.InterestResultData, Data: d, RawData: enc.Wire{raw}, SigCovered: cov})
+		}
+		if !s.quiesce() {
+			return false
+		}
+		s.drain()
+		if s.seen == nil {
+			s.seen = map[[2]int][][]byte{}
+		}
+		k := [2]int{a, b}
+		if l := s.seen[k]; len(l) == 0 || !bytes.Equal(l[len(l)-1], raw) {
+			s.seen[k] = append(l, raw)
+			if len(s.seen[k]) > 6 {
+				s.seen[k] = s.seen[k][1:]
+			}
 		}
 	}
 	return true
